@@ -667,7 +667,9 @@ def substep_variance_experiment(ctx, cls, rep, N):
     dt = rng.choice([60.0, 100.0, 600.0, 3600.0, 100, 600])
     vdt, m = pick_substep(ctx, cls, rep, dt)
     K = rng.choice([1e-4, 1e-3, 1e-2])
-    kind = rng.choice(["constant", "constant", "capped", "layered", "layered_coarse", "layered_capped", "scalar"])
+    kinds = ["constant", "constant", "capped", "layered", "layered_coarse", "layered_capped", "scalar"]
+    # the first experiment of every class is on the LaBolle scheme (the one that has sub-steps)
+    kind = rng.choice(kinds[:-1]) if rep == 0 else rng.choice(kinds)
     H, thick = 5000.0, 1000.0
     name = rng.choice(["AKs", "vertdiff", "Kz"])
     conf = dict(land_collision="freeze", vertical_mixing=name)
@@ -840,7 +842,7 @@ def ladis_step_lengths(ctx):
 def substeps(ctx):
     N = ctx.n(100000, 300000)
     for cls in ("nondividing", "larger", "dividing", "equal", "default"):
-        for rep in range(ctx.n(4, 12) if cls in ("nondividing", "larger") else ctx.n(2, 5)):
+        for rep in range(ctx.n(6, 12) if cls in ("nondividing", "larger") else ctx.n(2, 5)):
             substep_variance_experiment(ctx, cls, rep, N)
     for cls in ("nondividing", "larger", "dividing"):
         for rep in range(ctx.n(1, 4)):
